@@ -47,7 +47,7 @@ CLAIMS = {
              "guarded INC transfers does not raise the rounded bottleneck, under the decidable no-tie hypothesis, with a proved "
              "counterexample without it) plus the same family and random kernels.",
         design="5/C02",
-        note=COMMON_NOTE + "Optimum = max_S confined(S)/|S|, proved equal to the minimum over all fractional assignment matrices (fractional Hall / Gale supply-demand, Lemmas/Duality.lean). 'optimised <= uniform' "
+        note=COMMON_NOTE + "The property's bound (one rounding step) is tested as such; undercuts within the proven half step per micro-op are the known finding undercut-accumulates-per-uop. transfers_bottleneck_mono is an auxiliary lemma tied to nothing. Optimum = max_S confined(S)/|S|, proved equal to the minimum over all fractional assignment matrices (fractional Hall / Gale supply-demand, Lemmas/Duality.lean). 'optimised <= uniform' "
              "on rounded sums is checked on executions, proved only for exact sums (transfer_max_le). Known finding: second pass on "
              "multi-micro-op kernels outside the family.",
         technique="Lean 4 proof (feasibility algebra, pigeonhole, LP duality via Hall's marriage theorem) + bounded-exhaustive execution of the real code against the Lean Spec",
@@ -90,7 +90,7 @@ CLAIMS = {
              "total), cp_marked_chain_is_longest, cp_no_deps_repaired. Theorems about the unrepaired variant (cp_underreports, "
              "cp_never_overreports) are kept as its witness. Tie: total and marks of the real function vs LCD.cpTotal / cpMarks; "
              "oracle Spec.longestChain in both directions, chain and stage validation.",
-        design="5/C04", note=COMMON_NOTE + "Hypotheses LoadsKnown / NonnegWeights are necessary (counterexamples proved); networkx is no longer involved in the "
+        design="5/C04", note=COMMON_NOTE + "Lean hypotheses NonnegStages and NonnegParams (realistic: latencies and load stages are non-negative). Hypotheses LoadsKnown / NonnegWeights are necessary (counterexamples proved); networkx is no longer involved in the "
              "path selection. Among chains of equal maximal length the implementation may mark another one than the model (counted).",
         technique="Lean 4 proof (DP equals the declarative longest chain; maximality) + differential correspondence + Spec oracle",
     ),
@@ -133,7 +133,7 @@ CLAIMS = {
              "atomic-write shape flags) + real MachineModel driven in subprocesses through random operation histories incl. truncation "
              "at each offset class and simultaneous cold starts, compared with cache-less runs.",
         design="5/C17 + notes/C17.md",
-        note=COMMON_NOTE + "Partial by nature: atomicity of os.replace, pickle, real process scheduling are runtime behaviour sampled by the "
+        note=COMMON_NOTE + "The model cannot plant a current-version cache with other content (only HashInj is assumed): transparency holds by construction of the writers; real-process histories are what discriminates. Partial by nature: atomicity of os.replace, pickle, real process scheduling are runtime behaviour sampled by the "
              "correspondence only. Not reached: a model file edited while it is being loaded.",
         technique="Lean 4 proof (invariant by induction over operation histories and interleavings) + history-driven correspondence",
     ),
@@ -145,7 +145,7 @@ CLAIMS = {
              "object-identity trace of which model lists each line received replayed through the model; structural digest of runtime "
              "caches/ISA models/parser singletons after every call; every report vs a fresh-process run.",
         design="5/C18 + notes/C18.md",
-        note=COMMON_NOTE + "Partial by nature: Python object aliasing is what the digest observes; balancer/KernelDG/Frontend are covered only by "
+        note=COMMON_NOTE + "Several theorems hold by construction of the abstract history model (it has one mutation site; it cannot express a write through another handed-out reference): the discriminating power is in the real-process correspondence and the AST-derived aliasing flags. Partial by nature: Python object aliasing is what the digest observes; balancer/KernelDG/Frontend are covered only by "
              "the fresh-process comparison.",
         technique="Lean 4 proof (state-threading refinement, induction over histories) + in-process history correspondence",
     ),
@@ -235,7 +235,7 @@ CLAIMS = {
              "(wall time bound on the best of three attempts with load-scaled slack, warning iff cut, subset with equal latencies, no child "
              "left, CP/TP unaffected) + virtual-clock runs incl. the overhead bound in virtual time for timeouts up to 21 s.",
         design="5/C19 + notes/C19.md",
-        note=COMMON_NOTE + "Partial by nature: wall-clock bounds, SIGKILL and reaping are runtime; the model cannot exhibit a hung join.",
+        note=COMMON_NOTE + "partial_subset / flag_iff_cut / complete_if_in_time are unfoldings of the abstract poll loop (a worker that is dead but incomplete is inexpressible); partial_post_subdict needs SumByKey and LinesUnique of the complete path list (logged at run time, not evaluated as an oracle). Partial by nature: wall-clock bounds, SIGKILL and reaping are runtime; the model cannot exhibit a hung join.",
         technique="Lean 4 proof (state machine of the poll loop) + real-process correspondence with real and virtual clocks",
     ),
     "C07": dict(
@@ -270,7 +270,7 @@ CLAIMS = {
              "domain test evaluated on every generated AST), range_expand, scale_pow2, imm_*_roundtrip. Tie/oracle: rendered random "
              "ASTs through ParserAArch64 vs the model and vs the AST; Lean renderer vs Python renderer.",
         design="5/C10 + notes/C10.md",
-        note=COMMON_NOTE + "Modelled not verified: pyparsing. ASCII only; label names starting with a shift-operator word or pld/pst are outside the domain.",
+        note=COMMON_NOTE + "classify_exclusive is true by construction of the four-constructor line type; the round-trip domain excludes labels that begin like a register name (v0_table, spin_loop): covered by neither theorem nor generator. Modelled not verified: pyparsing. ASCII only; label names starting with a shift-operator word or pld/pst are outside the domain.",
         technique="Lean 4 proof (parser round trip by induction over tokens/operands) + differential correspondence",
     ),
 }
